@@ -286,35 +286,36 @@ C19_idem(step) == (step.call.op = "query" /\ step.ret = "ok") =>
 
 (* ---------- the clause set ------------------------------------------------------------------ *)
 F(name, ok) == IF ok THEN {} ELSE {name}
+FP(prop, name, ok) == IF ok THEN {} ELSE {<<prop, name>>}
 
 Failing(d, h0, h1, prev, step) ==
-  F("C01_offer_justified", C01_offer_justified(d, h1, step)) \cup
-  F("C01_offer_known",     C01_offer_known(d, step)) \cup
-  F("C01_start_consumes",  C01_start_consumes(d, h0, prev, step)) \cup
-  F("C01_success_exact",   C01_success_exact(d, h1, step)) \cup
-  F("C01_status_truthful", C01_status_truthful(d, prev, step)) \cup
-  F("C01_decisions",       C01_decisions(d, h1, step)) \cup
-  F("C02_succeeded",       C02_succeeded(d, h1, step)) \cup
-  F("C02_rest_no_flight",  C02_rest_no_flight(step)) \cup
-  F("C02_ing_has_flight",  C02_ing_has_flight(step)) \cup
-  F("C02_doomed",          C02_doomed(h0, h1, step)) \cup
-  F("C03_rest",            C03_rest(h1, step)) \cup
-  F("C04_no_offer",        C04_no_offer(h0, step)) \cup
-  F("C04_absorb",          C04_absorb(h0, step)) \cup
-  F("C04_final",           C04_final(h0, prev, step)) \cup
-  F("C04_reject_pure",     C04_reject_pure(prev, step)) \cup
-  F("C04_reject_class",    C04_reject_class(step)) \cup
-  F("C07_safe",            C07_safe(d, h0, prev, step)) \cup
-  F("C07_once",            C07_once(d, h1, step)) \cup
-  F("C07_unreachable",     C07_unreachable(d, h1, step)) \cup
-  F("C07_not_succeeded",   C07_not_succeeded(d, h1, step)) \cup
-  F("C15_internal_error",  C15_internal_error(step)) \cup
-  F("C18_seq_prefix",      C18_seq_prefix(prev, step)) \cup
-  F("C18_ctxs_prefix",     C18_ctxs_prefix(prev, step)) \cup
-  F("C18_routes_prefix",   C18_routes_prefix(prev, step)) \cup
-  F("C18_started_fixed",   C18_started_fixed(prev, step)) \cup
-  F("C18_decided_fixed",   C18_decided_fixed(prev, step)) \cup
-  F("C19_idem",            C19_idem(step))
+  FP("C01", "C01_offer_justified", C01_offer_justified(d, h1, step)) \cup
+  FP("C01", "C01_offer_known",     C01_offer_known(d, step)) \cup
+  FP("C01", "C01_start_consumes",  C01_start_consumes(d, h0, prev, step)) \cup
+  FP("C01", "C01_success_exact",   C01_success_exact(d, h1, step)) \cup
+  FP("C01", "C01_status_truthful", C01_status_truthful(d, prev, step)) \cup
+  FP("C01", "C01_decisions",       C01_decisions(d, h1, step)) \cup
+  FP("C02", "C02_succeeded",       C02_succeeded(d, h1, step)) \cup
+  FP("C02", "C02_rest_no_flight",  C02_rest_no_flight(step)) \cup
+  FP("C02", "C02_ing_has_flight",  C02_ing_has_flight(step)) \cup
+  FP("C02", "C02_doomed",          C02_doomed(h0, h1, step)) \cup
+  FP("C03", "C03_rest",            C03_rest(h1, step)) \cup
+  FP("C04", "C04_no_offer",        C04_no_offer(h0, step)) \cup
+  FP("C04", "C04_absorb",          C04_absorb(h0, step)) \cup
+  FP("C04", "C04_final",           C04_final(h0, prev, step)) \cup
+  FP("C04", "C04_reject_pure",     C04_reject_pure(prev, step)) \cup
+  FP("C04", "C04_reject_class",    C04_reject_class(step)) \cup
+  FP("C07", "C07_safe",            C07_safe(d, h0, prev, step)) \cup
+  FP("C07", "C07_once",            C07_once(d, h1, step)) \cup
+  FP("C07", "C07_unreachable",     C07_unreachable(d, h1, step)) \cup
+  FP("C07", "C07_not_succeeded",   C07_not_succeeded(d, h1, step)) \cup
+  FP("C15", "C15_internal_error",  C15_internal_error(step)) \cup
+  FP("C18", "C18_seq_prefix",      C18_seq_prefix(prev, step)) \cup
+  FP("C18", "C18_ctxs_prefix",     C18_ctxs_prefix(prev, step)) \cup
+  FP("C18", "C18_routes_prefix",   C18_routes_prefix(prev, step)) \cup
+  FP("C18", "C18_started_fixed",   C18_started_fixed(prev, step)) \cup
+  FP("C18", "C18_decided_fixed",   C18_decided_fixed(prev, step)) \cup
+  FP("C19", "C19_idem",            C19_idem(step))
 
 (* ---------- signatures of known findings (known_findings.json) ----------------------------- *)
 (* S2: join: N with more than N inbound tasks; a further branch arrives after the join has     *)
